@@ -14,7 +14,7 @@ ENGINE = "gen_deep"
 RULE = ("programs = `const K: T = <konst call>;` on inputs built from 100..=2000 repetitions of a unit (pattern, digit, delimiter, "
         "equal prefix) around a core, for the functions of the property (C07 chars / char_indices and C08 slice iterators via collect_const!, C13 / C14 Parser operations, C04 find family, C05 strip / trim family, C06 split via "
         "collect_const!, C12 integer parsing of zero-padded numerals, C16 string / byte comparison, C20 str_concat! / str_join! of "
-        "hundreds of pieces); oracle = the std expression on the same constants evaluated at run time; a program whose constant "
+        "hundreds to thousands of pieces (an accidentally quadratic loop exceeds the const evaluator's step budget there)); oracle = the std expression on the same constants evaluated at run time; a program whose constant "
         "fails to evaluate (E0080: frame limit, overflow, failed assertion) while its std twin compiles is a violation; "
         "non-trivial = repetition count > 128 (deeper than the const evaluator's frame limit); distinct by program text")
 
@@ -26,7 +26,7 @@ def lit(s):
 def rows(prop, rng, tier):
     """list of (type, decls, konst expr, std expr, repetitions)"""
     out = []
-    reps = [100, 127, 128, 129, 130, 200, 400] + ([1000, 2000] if tier == "thorough" else [700])
+    reps = [100, 127, 128, 129, 130, 200, 400] + ([1000, 2000, 5000] if tier == "thorough" else [700, 2500])
     if prop == "C05":
         for k in reps:
             for unit, pat_tok in (("-", "\"-\""), ("-", "'-'"), ("ab", "\"ab\""), ("é", "'é'"), ("é", "\"é\"")):
@@ -132,7 +132,7 @@ def rows(prop, rng, tier):
                     out.append(("&str", d, "match konst::Parser::new(S).rfind_skip(\";\") { Ok(p) => p.remainder(), Err(_) => \"<err>\" }", "&S[..S.rfind(';').unwrap()]", k))
                     out.append(("(&str, &str)", d, "match konst::Parser::new(S).split(\";\") { Ok((piece, p)) => (piece, p.remainder()), Err(_) => (\"<err>\", \"\") }", "S.split_once(';').unwrap()", k))
     elif prop == "C20":
-        for k in reps[:7]:
+        for k in reps[:7] + [1500, 2500]:
             out.append(("&str", "const N: usize = %d;" % k, "konst::string::str_concat!(&[\"ab\"; N])", "[\"ab\"; N].concat()", k))
             out.append(("&str", "const N: usize = %d;" % k, "konst::string::str_join!(\", \", &[\"é\"; N])", "[\"é\"; N].join(\", \")", k))
             out.append(("&str", "const N: usize = %d;" % k, "konst::string::str_concat!(&['é'; N])", "['é'; N].iter().collect::<String>()", k))
@@ -200,7 +200,15 @@ def run(prop, tier, seed, out, timeout, **kw):
                     msg = " ".join(re.findall(r"error(?:\[E\d+\])?: .*", e)[:2]) or e.strip()[-300:]
                     violations.append((chunk[i], "the constant cannot be evaluated / the program dies although the std twin is fine: " + msg))
                 else:
-                    return 2, "[gen_deep] generated program does not compile (generator error):\n%s\n%s" % (block(0, chunk[i]), e[-3000:])
+                    # some other compile error (e.g. the deny-by-default long_running_const_eval lint): a verdict if the
+                    # std expression on the same constants still compiles
+                    ty, decl, k, st, _ = chunk[i]
+                    driver.write_bin("deep_twin", "#![allow(unused)]\nfn main() { %s let o = %s; println!(\"{}\", std::mem::size_of_val(&o)); }\n" % (decl, st))
+                    okt, outt = driver.build_bin("deep_twin")
+                    if not okt:
+                        return 2, "[gen_deep] generated program does not compile, nor does its std twin (generator error):\n%s\n%s" % (block(0, chunk[i]), e[-3000:])
+                    import re
+                    violations.append((chunk[i], "the constant does not compile although the std twin does: " + " ".join(re.findall(r"error(?:\[E\d+\])?: .*", e)[:2])))
             continue
         for line in outr.splitlines():
             if line.startswith("FAIL "):
